@@ -25,12 +25,26 @@ func (r *Run) isLockCall(f *ssa.Function) string {
 }
 
 func (r *Run) monitorByComp(comp string) *Monitor {
+	// several "protected" declarations for the same mutex add up
+	var merged *Monitor
 	for _, m := range r.specs.Monitors {
 		if "F."+m.Pkg+"."+m.Struct+"."+m.Mutex == comp {
-			return m
+			if merged == nil {
+				c := *m
+				c.Fields = append([]string(nil), m.Fields...)
+				c.Inv = append([]Clause(nil), m.Inv...)
+				c.LockGhost = append([]GhostAssign(nil), m.LockGhost...)
+				c.UnlockGhost = append([]GhostAssign(nil), m.UnlockGhost...)
+				merged = &c
+			} else {
+				merged.Fields = append(merged.Fields, m.Fields...)
+				merged.Inv = append(merged.Inv, m.Inv...)
+				merged.LockGhost = append(merged.LockGhost, m.LockGhost...)
+				merged.UnlockGhost = append(merged.UnlockGhost, m.UnlockGhost...)
+			}
 		}
 	}
-	return nil
+	return merged
 }
 
 func (r *Run) monitorFor(fa *ssa.FieldAddr) *Monitor {
@@ -252,6 +266,27 @@ func (r *Run) execCall(fr *Frame, st *State, reach Term, cc *ssa.CallCommon, ins
 		}
 		return r.freshTyped(hint, resType, st)
 	}
+	// addresses handed to the callee: what they designate is the callee's to change
+	r.escaping = map[string]bool{}
+	for _, a := range args {
+		switch a.Kind {
+		case VTerm:
+			r.escaping[a.T.S] = true
+		case VFunc:
+			for _, b := range a.Bind {
+				if b.Kind == VTerm {
+					r.escaping[b.T.S] = true
+				}
+			}
+		}
+	}
+	// a function literal handed to someone else (an executor, a timer): whoever runs it relies on its precondition,
+	// so it is an obligation here, with the captured variables at their current values
+	for _, a := range args {
+		if a.Kind == VFunc && a.Fn != nil && a.Fn.Parent() != nil {
+			r.spawnObligations(fr, st, reach, a, instr)
+		}
+	}
 	if cc.IsInvoke() {
 		key := "iface:" + ifaceKey(cc.Value.Type(), cc.Method.Name())
 		if sp := r.specs.Funcs[key]; sp != nil {
@@ -378,6 +413,20 @@ func (r *Run) callStatic(fr *Frame, st *State, reach Term, callee *ssa.Function,
 		}
 		if len(sp.Params) > 0 {
 			names = sp.Params
+		}
+		if callee.Parent() != nil {
+			// a function literal called under its own contract: its captured variables are visible by name
+			cargs := append([]Val(nil), args...)
+			cnames := append([]string(nil), names...)
+			for i, fv := range callee.FreeVars {
+				if i < len(binds) {
+					if l := r.derefLoc(binds[i]); l != nil {
+						cnames = append(cnames, fv.Name())
+						cargs = append(cargs, r.loadTyped(st, l))
+					}
+				}
+			}
+			return r.callWithSpec(fr, st, reach, sp, sig, cnames, cargs, instr, callee.Name())
 		}
 		return r.callWithSpec(fr, st, reach, sp, sig, names, args, instr, callee.Name())
 	}
@@ -987,10 +1036,16 @@ func (r *Run) lockOp(fr *Frame, st *State, reach Term, kind string, args []Val, 
 				r.ctx.Assert(Implies(reach, g))
 			}
 		}
+		if mon != nil {
+			r.monGhost(mon, st, obj, mon.LockGhost)
+		}
 		r.ghostAt(fr, st, reach, fmt.Sprintf("lock#%d", ord), instr)
 		return
 	}
 	r.ghostAt(fr, st, reach, fmt.Sprintf("unlock#%d", ord), instr)
+	if mon != nil {
+		r.monGhost(mon, st, obj, mon.UnlockGhost)
+	}
 	r.safety(fr, "lock", reach, Select(held, obj), instr.Pos(), "Unlock of a mutex that is not held")
 	if mon != nil {
 		env := r.monitorEnv(mon, st, obj)
@@ -1187,12 +1242,10 @@ func (r *Run) ghostAt(fr *Frame, st *State, reach Term, anchor string, instr ssa
 			vals = append(vals, env.eval(ga.RHS))
 		}
 		for i, ga := range gb.Assign {
-			l := r.ghostLoc(env, ga.LHS)
-			if env.err != nil || l == nil {
+			if !r.ghostAssign(env, st, ga.LHS, vals[i]) {
 				r.fatal = fmt.Sprintf("%s ghost block at %s: %v", funcKey(fr.fn), anchor, env.err)
 				return
 			}
-			r.store(st, l, vals[i])
 		}
 	}
 }
@@ -1383,4 +1436,83 @@ func (r *Run) copyOp(fr *Frame, st *State, reach Term, cc *ssa.CallCommon, args 
 	r.ctx.Assert(Term{fmt.Sprintf("(forall ((j Int)) (! %s :pattern ((select %s j))))", body.S, row.S), SBool})
 	r.heapSet(st, comp, r.ctx.Define("h."+comp, Store(M, slBase(d), row)))
 	return termVal(n, intT)
+}
+
+// spawnObligations: precondition of an escaping closure at the point where it is handed over.
+func (r *Run) spawnObligations(fr *Frame, st *State, reach Term, clo Val, instr ssa.Instruction) {
+	sp := r.specFor(clo.Fn)
+	if sp == nil || sp.Inline || len(sp.Requires) == 0 {
+		return
+	}
+	env := &Env{r: r, vars: map[string]Val{}, oldVars: map[string]Val{}, st: st, old: st, pkg: r.specEnvPkg(sp), specPkg: sp.Pkg}
+	for i, fv := range clo.Fn.FreeVars {
+		if i < len(clo.Bind) {
+			if l := r.derefLoc(clo.Bind[i]); l != nil {
+				env.vars[fv.Name()] = r.loadTyped(st, l)
+			}
+		}
+	}
+	pos := token.NoPos
+	if instr != nil {
+		pos = instr.Pos()
+	}
+	for i, c := range sp.Requires {
+		parts := env.evalBoolParts(c.E)
+		if env.err != nil {
+			r.fatal = fmt.Sprintf("%s requires %d (at hand-over in %s): %v", sp.Key, i+1, funcKey(fr.fn), env.err)
+			return
+		}
+		for pi, g := range parts {
+			name := fmt.Sprintf("%sspawn@%s.%s", r.inlinePrefix(fr), clo.Fn.Name(), clauseName(c, i))
+			if len(parts) > 1 {
+				name += fmt.Sprintf(".%d", pi+1)
+			}
+			r.oblige(fr, "pre", "", name, reach, g, r.funcProps(fr), pos, c.Text)
+		}
+	}
+}
+
+// monGhost runs monitor-level ghost code (simultaneous assignment) with self bound to the locked object.
+func (r *Run) monGhost(mon *Monitor, st *State, obj Term, gas []GhostAssign) {
+	if len(gas) == 0 {
+		return
+	}
+	env := r.monitorEnv(mon, st, obj)
+	var vals []Val
+	for _, ga := range gas {
+		vals = append(vals, env.eval(ga.RHS))
+	}
+	for i, ga := range gas {
+		if !r.ghostAssign(env, st, ga.LHS, vals[i]) {
+			r.fatal = fmt.Sprintf("monitor %s.%s ghost code: %v", mon.Struct, mon.Mutex, env.err)
+			return
+		}
+	}
+}
+
+// ghostAssign: lhs = val, where lhs is a ghost location or one entry x.g[k] of an array-valued ghost field.
+func (r *Run) ghostAssign(env *Env, st *State, lhs Expr, val Val) bool {
+	if ix, ok := lhs.(*EIndex); ok {
+		if _, isSel := ix.X.(*ESel); isSel {
+			l := r.ghostLoc(env, ix.X)
+			if env.err != nil || l == nil {
+				return false
+			}
+			if strings.HasPrefix(l.Sort, "(Array ") {
+				cur := r.load(st, l)
+				k := env.term(env.eval(ix.I))
+				if env.err != nil {
+					return false
+				}
+				r.store(st, l, termVal(Store(cur.T, k, r.mustTerm(val, "ghost value")), nil))
+				return true
+			}
+		}
+	}
+	l := r.ghostLoc(env, lhs)
+	if env.err != nil || l == nil {
+		return false
+	}
+	r.store(st, l, val)
+	return true
 }
